@@ -32,7 +32,27 @@ func DefaultCreateConnection(remote net.Addr, block kcp.BlockCrypt) (net.Conn, e
 		listener = conn
 	}
 
-	return kcp.NewConn2(remote, block, 10, 3, listener)
+	session, err := kcp.NewConn2(remote, block, 10, 3, listener)
+	if err != nil {
+		_ = listener.Close()
+		return nil, errors.WithStack(err)
+	}
+	return &packetSession{UDPSession: session, socket: listener}, nil
+}
+
+// packetSession is a KCP session together with the datagram socket which was opened for it. KCP does not close
+// a socket it was handed, and its receive loop runs as long as the socket is open.
+type packetSession struct {
+	*kcp.UDPSession
+	socket net.PacketConn
+}
+
+func (p *packetSession) Close() error {
+	err := p.UDPSession.Close()
+	if e := p.socket.Close(); err == nil {
+		err = e
+	}
+	return err
 }
 
 func (ups *Packet) String() string {
